@@ -32,6 +32,19 @@ type KeyObject struct {
 	locked bool
 }
 
+// bulkString encodes a string, integer or float value as a RESP bulk string.
+// Values of any other type (list, hash, set, sorted set) are rejected with an error.
+func bulkString(key string, value interface{}) ([]byte, error) {
+	switch value.(type) {
+	case nil:
+		return []byte("$-1\r\n"), nil
+	case string, int, int64, float64:
+		s := fmt.Sprintf("%v", value)
+		return []byte(fmt.Sprintf("$%d\r\n%s\r\n", len(s), s)), nil
+	}
+	return nil, fmt.Errorf("value at key %s is not a string", key)
+}
+
 func handleSet(params internal.HandlerFuncParams) ([]byte, error) {
 	keys, err := setKeyFunc(params.Command)
 	if err != nil {
@@ -55,7 +68,9 @@ func handleSet(params internal.HandlerFuncParams) ([]byte, error) {
 		if !keyExists {
 			res = []byte("$-1\r\n")
 		} else {
-			res = []byte(fmt.Sprintf("+%v\r\n", params.GetValues(params.Context, []string{key})[key]))
+			if res, err = bulkString(key, params.GetValues(params.Context, []string{key})[key]); err != nil {
+				return nil, err
+			}
 		}
 	}
 
@@ -122,7 +137,7 @@ func handleGet(params internal.HandlerFuncParams) ([]byte, error) {
 
 	value := params.GetValues(params.Context, []string{key})[key]
 
-	return []byte(fmt.Sprintf("+%v\r\n", value)), nil
+	return bulkString(key, value)
 }
 
 func handleMGet(params internal.HandlerFuncParams) ([]byte, error) {
@@ -710,13 +725,17 @@ func handleGetdel(params internal.HandlerFuncParams) ([]byte, error) {
 	}
 
 	value := params.GetValues(params.Context, []string{key})[key]
+	res, err := bulkString(key, value)
+	if err != nil {
+		return nil, err
+	}
 	delkey := keys.WriteKeys[0]
 	err = params.DeleteKey(params.Context, delkey)
 	if err != nil {
 		return nil, err
 	}
 
-	return []byte(fmt.Sprintf("+%v\r\n", value)), nil
+	return res, nil
 }
 
 func handleGetex(params internal.HandlerFuncParams) ([]byte, error) {
@@ -732,7 +751,10 @@ func handleGetex(params internal.HandlerFuncParams) ([]byte, error) {
 		return []byte("$-1\r\n"), nil
 	}
 
-	value := params.GetValues(params.Context, []string{key})[key]
+	value, err := bulkString(key, params.GetValues(params.Context, []string{key})[key])
+	if err != nil {
+		return nil, err
+	}
 
 	exkey := keys.WriteKeys[0]
 
@@ -740,7 +762,7 @@ func handleGetex(params internal.HandlerFuncParams) ([]byte, error) {
 
 	// Handle no expire options provided
 	if cmdLen == 2 {
-		return []byte(fmt.Sprintf("+%v\r\n", value)), nil
+		return value, nil
 	}
 
 	// Handle persist
@@ -749,12 +771,12 @@ func handleGetex(params internal.HandlerFuncParams) ([]byte, error) {
 	if exCommand == "persist" {
 		// getValues will update key access so no need here
 		params.SetExpiry(params.Context, exkey, time.Time{}, false)
-		return []byte(fmt.Sprintf("+%v\r\n", value)), nil
+		return value, nil
 	}
 
 	// Handle exipre command passed but no time provided
 	if cmdLen == 3 {
-		return []byte(fmt.Sprintf("+%v\r\n", value)), nil
+		return value, nil
 	}
 
 	// Extract time
@@ -782,7 +804,7 @@ func handleGetex(params internal.HandlerFuncParams) ([]byte, error) {
 
 	params.SetExpiry(params.Context, exkey, expireAt, false)
 
-	return []byte(fmt.Sprintf("+%v\r\n", value)), nil
+	return value, nil
 
 }
 
